@@ -655,12 +655,18 @@ void NiBlendInterpolator::GetChildRefs(std::set<NiRef*>& refs) {
 	NiInterpolator::GetChildRefs(refs);
 
 	refs.insert(&singleInterpolatorRef);
+
+	for (auto& item : interpItems)
+		refs.insert(&item.interpolatorRef);
 }
 
 void NiBlendInterpolator::GetChildIndices(std::vector<uint32_t>& indices) {
 	NiInterpolator::GetChildIndices(indices);
 
 	indices.push_back(singleInterpolatorRef.index);
+
+	for (auto& item : interpItems)
+		indices.push_back(item.interpolatorRef.index);
 }
 
 
